@@ -69,7 +69,7 @@ def check_value(t, v, res, where):
         res.bad('%s: %s given for boolean' % (where, type(v).__name__))
         return
     if t in ('s', 'o', 'g'):
-        if isinstance(v, SStr):
+        if isinstance(v, SStr) or type(v).__name__ == 'SFmt':
             return
         if isinstance(v, (SInt, SBuf)) or not isinstance(v, str):
             res.bad('%s: %s given for string type %r' % (where, 'int/bytes' if is_sym(v) else type(v).__name__, t))
@@ -136,7 +136,7 @@ def check_variant(v, res, where):
     if v is None:
         res.bad('%s: None cannot be sent over D-Bus' % where)
         return
-    if isinstance(v, (SStr,)) or (isinstance(v, str) and not is_sym(v)):
+    if isinstance(v, (SStr,)) or type(v).__name__ == 'SFmt' or (isinstance(v, str) and not is_sym(v)):
         return
     if isinstance(v, SBool) or type(v) is bool:
         return
